@@ -310,7 +310,9 @@ pub fn summarise(results: &[JobResult], functions: &[&str], bounds: &str, cfg_no
     let exhaustive = not_run.is_empty() && incomplete.is_empty() && engine_errors.is_empty() && unknowns == 0;
     let json = J::obj(vec![
         ("states", J::I(paths as i64)),
-        ("transitions", J::I(decisions as i64)),
+        // explorer decision points: solver-decided branches/concretisations + enumerated identifier choices
+        ("transitions", J::I(decisions as i64 + results.iter().map(|r| r.stats.enumerated as i64).sum::<i64>())),
+        ("solver_decided_points", J::I(decisions as i64)),
         ("traces_validated_against_impl", J::I(validated as i64)),
         ("native_property_checks_passed", J::I(native_ok as i64)),
         ("samples", J::A(samples)),
